@@ -38,6 +38,7 @@ type c20Script struct {
 	Status  int         `json:"status"`
 	Headers [][2]string `json:"headers"`
 	Chunks  []int       `json:"chunks"`
+	Early   bool        `json:"early_hints,omitempty"` // 103 before the final status
 }
 
 type c20Inner struct {
@@ -63,6 +64,8 @@ func (in *c20Inner) ServeHTTP(w http.ResponseWriter, req *http.Request) {
 	case "ok":
 		w.WriteHeader(200)
 		return
+	case "abort":
+		panic(http.ErrAbortHandler)
 	case "hold":
 		in.entered <- struct{}{}
 		<-in.hold
@@ -85,6 +88,11 @@ func (in *c20Inner) ServeHTTP(w http.ResponseWriter, req *http.Request) {
 		_, _ = conn.Write([]byte("HTTP/1.1 200 OK\r\nConnection: close\r\nContent-Length: 6\r\nX-Hijacked: 1\r\n\r\nhijack"))
 		_ = conn.Close()
 		return
+	}
+	if s.Early {
+		w.Header().Set("Link", "</style.css>; rel=preload")
+		w.WriteHeader(http.StatusEarlyHints)
+		w.Header().Del("Link")
 	}
 	for _, h := range s.Headers {
 		w.Header().Add(h[0], h[1])
@@ -132,7 +140,7 @@ func c20Build(specs []c20MW, inner http.Handler) (http.Handler, error) {
 		case "trace":
 			h, err = trace.New(h, io.Discard, trace.RequestHeaders("X-Req-Id"), trace.ResponseHeaders("X-App"))
 		case "connlimit":
-			max := int64(1000)
+			max := int64(2) // requests are sequential: the limit is never reached
 			if sp.Intervene {
 				max = 1
 			}
@@ -242,6 +250,9 @@ func c20Stacks(c *Ctx) {
 		for n := r.IntN(6); n > 0; n-- {
 			script.Headers = append(script.Headers, [2]string{pick(r, []string{"X-App", "X-Multi", "Cache-Control", "Etag", "Content-Language", "Set-Cookie"}), randToken(r, 1+r.IntN(10))})
 		}
+		if script.Kind == "plain" && script.Status != 0 && r.IntN(6) == 0 {
+			script.Early = true
+		}
 		explicitCT := r.IntN(3) != 0
 		if explicitCT {
 			script.Headers = append(script.Headers, [2]string{"Content-Type", "application/x-verif"})
@@ -302,6 +313,11 @@ func c20Stacks(c *Ctx) {
 			return resp, append(out, rest...), err
 		}
 		c.Eval()
+		// history: a few requests whose handler aborts (panic(http.ErrAbortHandler)) went through the stack before
+		for k := r.IntN(4); k > 0 && iv < 0; k-- {
+			_, _, _ = do(sfmt("abort%d", k), "abort", nil, nil)
+			c.Count("aborted_requests_in_history", 1)
+		}
 		if iv >= 0 {
 			// pre-drive through the whole stack
 			var released sync.WaitGroup
